@@ -3,6 +3,8 @@ import Model.Common.Sha256
 import Model.C05.VarInt
 import Model.C05.Codec
 import Model.C05.Tx
+import Model.C05.PsbtMap
+import Model.C05.Misc
 import Generated.VarInt
 import Generated.Wire
 open Btc Btc.Wire
@@ -67,6 +69,9 @@ def handle : List String → String
       | "block.parse" => runCodec block
           (fun bl => s!"{rHeader bl.header} n={bl.txs.length} txs={toHex (hash256 ((bl.txs.map rTx).foldl (fun acc s => acc ++ s.toUTF8.toList) []))}")
           blockExtra mode b
+      | "xkey.parse" => runCodec xkey rXKey none' mode b
+      | "psbtmap.parse" => Psbt.runMap mode b
+      | "psbtmap.norm" => Psbt.runNorm mode b
       | _ => "bad-op"
   | _ => "bad-op"
 
